@@ -336,6 +336,7 @@ func genSub(rt *rapid.T) Sub {
 	c.Cfg.RcvBuf = rapid.SampledFrom(bufs).Draw(rt, "rcvbuf")
 	c.Cfg.Chunk = rapid.SampledFrom([]int{0, 0, 1, 1, 2, 7, 64, 512}).Draw(rt, "viewchunk")
 	c.Cfg.Pad = rapid.SampledFrom([]int{0, 0, 0, 46, 46, 1, 4, 18}).Draw(rt, "linkpad")
+	c.Cfg.KeepaliveMs = rapid.SampledFrom([]int{0, 0, 0, 2, 10, 40}).Draw(rt, "keepalive")
 	size := func(label string) int {
 		return rapid.OneOf(rapid.IntRange(0, 3), rapid.IntRange(1, 3000), rapid.IntRange(1, 20000), rapid.IntRange(20000, 120000)).Draw(rt, label)
 	}
@@ -364,13 +365,13 @@ func genSub(rt *rapid.T) Sub {
 	switch rapid.IntRange(lo, 3).Draw(rt, "iss_mode") {
 	case 1:
 		c.Cfg.PlaceActive = true
-		c.Cfg.ActiveISS = wrapNear(rt, "active", c.AtoB)
+		c.Cfg.ActiveISS = wrapNear(rt, "active", c.AtoB, c.Cfg.RcvBuf)
 	case 2:
 		c.Cfg.PlacePassive = true
-		c.Cfg.PassiveISS = wrapNear(rt, "passive", c.BtoA)
+		c.Cfg.PassiveISS = wrapNear(rt, "passive", c.BtoA, c.Cfg.RcvBuf)
 	case 3:
 		c.Cfg.PlaceActive = true
-		c.Cfg.ActiveISS = wrapNear(rt, "active", c.AtoB)
+		c.Cfg.ActiveISS = wrapNear(rt, "active", c.AtoB, c.Cfg.RcvBuf)
 	}
 	// fault program
 	mss := c.Cfg.MTU - 40
@@ -443,8 +444,14 @@ func genSub(rt *rapid.T) Sub {
 }
 
 // wrapNear picks an ISS such that a stream of `size` bytes crosses 2^31 or 2^32.
-func wrapNear(rt *rapid.T, label string, size int) uint32 {
-	k := uint32(rapid.IntRange(0, size+2).Draw(rt, label+"_k"))
+// wrapNear places a sequence number at most size (the bytes that will be sent) below a wrap
+// point, or up to window further below it, so that the right edge of the window crosses the
+// point before the data does.
+func wrapNear(rt *rapid.T, label string, size int, window int) uint32 {
+	if window <= 0 {
+		window = 1 << 20
+	}
+	k := uint32(rapid.OneOf(rapid.IntRange(0, size+2), rapid.IntRange(window+1, window+size+1), rapid.IntRange(0, size+window+2)).Draw(rt, label+"_k"))
 	if rapid.Bool().Draw(rt, label+"_32") {
 		return 0 - k
 	}
